@@ -114,7 +114,28 @@ class ConnGenHandler(ShapedHandler):
         self.nreq += 1
 
 
-def serve(frames: int, K: int, path: str, per_gen: int, timeout, conn_gen: bool = False, close_after: int = 0, bufsize: int = 16, respond: bool = True, prefix: list = ()):
+class ConnGen2Handler(ShapedHandler):
+    """on_connection is an async generator that consumes the first TWO requests, yielding a different timeout each time
+    (5 ticks, then None): every yield's own timeout must be honoured"""
+
+    async def _conn_gen(self, client):
+        self.log.append(("connected",))
+        for t in (5, None):
+            while True:
+                try:
+                    req = yield t
+                except StreamProtocolParseError:
+                    self.log.append(("err",))
+                except TimeoutError:
+                    self.log.append(("conn-timeout", t))
+                    continue
+                else:
+                    self.log.append(("req", req))
+                break
+            self.nreq += 1
+
+
+def serve(frames: int, K: int, path: str, per_gen: int, timeout, conn_gen: int = 0, close_after: int = 0, bufsize: int = 16, respond: bool = True, prefix: list = ()):
     def scenario(S):
         payloads = [S.bytes_in(1, (L.MARK, 65 + i), f"f{i}_") for i in range(frames)]  # each frame: well-formed or malformed
         stream = b""
@@ -132,7 +153,7 @@ def serve(frames: int, K: int, path: str, per_gen: int, timeout, conn_gen: bool 
             proto = BufferedStreamProtocol(ser) if path == "buf" else StreamProtocol(ser)
             server = AsyncStreamServer(MemListener(be, [tr]), proto, bufsize)
             log = []
-            H = (ConnGenHandler if conn_gen else ShapedHandler)(log, per_gen, timeout, conn_gen, close_after, be, respond)
+            H = (ConnGen2Handler if conn_gen == 2 else ConnGenHandler if conn_gen else ShapedHandler)(log, per_gen, timeout, conn_gen, close_after, be, respond)
             st = {"bad_timeout": False, "t_yield": None, "avail_at_yield": 0}
 
             def complete_received():
@@ -162,7 +183,7 @@ def serve(frames: int, K: int, path: str, per_gen: int, timeout, conn_gen: bool 
             main_task = loop.create_task(main())
             disconnected_by_peer = False
             for i in range(K):
-                nev = 2 if timeout is None else 3  # 'time passes' only matters when the handler yields a timeout
+                nev = 2 if (timeout is None and conn_gen != 2) else 3  # 'time passes' only matters when the handler yields a timeout
                 c = prefix[i] if i < len(prefix) else S.choice(nev, f"ev{i}")
                 if c == 0:
                     loop.step()
@@ -211,6 +232,8 @@ def serve(frames: int, K: int, path: str, per_gen: int, timeout, conn_gen: bool 
                 ok = False
             if timeout is None and ("timeout",) in log:
                 ok = False
+            if ("conn-timeout", None) in log:
+                ok = False  # TimeoutError thrown into a generator that yielded None
             if respond and ok:
                 sent = b""
                 for piece in tr.sent:
@@ -218,7 +241,7 @@ def serve(frames: int, K: int, path: str, per_gen: int, timeout, conn_gen: bool 
                 exp = b""
                 nresp = 0
                 for idx, w in enumerate(want):
-                    if w[0] == "req" and not (conn_gen and idx == 0):
+                    if w[0] == "req" and not (conn_gen and idx < int(conn_gen)):
                         exp = exp + w[1] + b"\n"
                 if not (sent == exp):
                     ok = False
@@ -252,13 +275,14 @@ def shards(tier: str):
         ("ginf-t0", dict(per_gen=0, timeout=0)),
         ("g1-t0", dict(per_gen=1, timeout=0)),
         ("ginf-t5", dict(per_gen=0, timeout=5)),
-        ("g1-conngen", dict(per_gen=1, timeout=None, conn_gen=True)),
+        ("g1-conngen", dict(per_gen=1, timeout=None, conn_gen=1)),
+        ("g1-conngen2", dict(per_gen=1, timeout=None, conn_gen=2)),
         ("ginf-close2", dict(per_gen=0, timeout=None, close_after=2)),
         ("g1-close1", dict(per_gen=1, timeout=None, close_after=1)),
     ]
     for name, shape in shapes:
-        frames = 3 if (name.startswith("g2") or name.endswith("close2") or not quick) else 2
-        nev = 2 if shape["timeout"] is None else 3
+        frames = 3 if (name.startswith("g2") or name.endswith("close2") or name.endswith("conngen2") or not quick) else 2
+        nev = 2 if (shape["timeout"] is None and shape.get("conn_gen") != 2) else 3
         for path in ("copy", "buf"):
             for pre in range(nev):
                 add(f"serve/{name}/{path}/K{K}/pre{pre}", dict(frames=frames, K=K, path=path, prefix=[pre], **shape), cost=100 * nev**K)
